@@ -56,6 +56,24 @@ REVIEWED_OPS = {
 }
 
 
+def _review_still_holds(f: Func | None, fq: str, what: str) -> bool:
+    """A reviewed exemption is only as good as the structural fact it rests on; where that fact is local it is re-checked."""
+    if f is None:
+        return False
+    if fq == "_SteppedPatternBuilder._add_embedded_local_partial":
+        # `case _: raise RuntimeError` is dead only if get_embedded_pattern() has run (and raised for an unknown type letter)
+        # before the match statement is entered: an unconditional earlier sibling statement of the match must contain the call
+        for m in own_nodes(f.node):
+            if isinstance(m, ast.Match) and any(isinstance(x, ast.Raise) and "RuntimeError" in unparse(x) for c in m.cases for b in c.body for x in ast.walk(b)):
+                par = getattr(m, "_parent", None)
+                blk = getattr(par, "body", [])
+                if m in blk:
+                    before = blk[: blk.index(m)]
+                    return any(isinstance(st, (ast.Assign, ast.AnnAssign, ast.Expr)) and any(isinstance(c, ast.Call) and isinstance(c.func, ast.Attribute) and c.func.attr == "get_embedded_pattern" for c in ast.walk(st)) for st in before)
+        return False
+    return True
+
+
 def _cfg(allowed_excluded: dict[str, str] | None = None) -> ExcConfig:
     return ExcConfig(excluded_funcs=dict(ON_REQUEST, **(allowed_excluded or {})))
 
@@ -149,7 +167,7 @@ def _layer_rule(ctx: Ctx, rr: RuleResult, mode: str, allowed: set[str]) -> None:
         if e.exc == "NotImplementedError" and _abstract(of):
             rr.ok({"abstract": fq, "note": "overridden by every concrete subclass (R08.5)"})
             continue
-        if (fq, what) in REVIEWED_RAISES:
+        if (fq, what) in REVIEWED_RAISES and _review_still_holds(of, fq, what):
             rr.ok({"raise": f"{fq}: {what[:60]}", "reviewed": REVIEWED_RAISES[(fq, what)]})
             continue
         origin = (fq, what[6:][:80] if what.startswith("raise ") else what[:80])
@@ -654,14 +672,21 @@ def r08_6_month_length_guard(ctx: Ctx) -> RuleResult:
     from ..exc import _terminates
     from ..kit import inline_locals
 
-    rr = RuleResult("R08.6", "every trusted year/month/day packing in the text layer is dominated by a day <= days-in-month(year, month) guard that leaves with a failure result", min_instances=2)
+    rr = RuleResult("R08.6", "every trusted year/month/day packing in the text layer is dominated by a day <= days-in-month(year, month) guard that leaves with a failure result", min_instances=3)
     for f in sorted(set(ctx.M.func_of_node.values()), key=lambda x: x.qual):
         if "/text/" not in f.mod.rel or isinstance(f.node, ast.Lambda):
             continue
         for c in own_nodes(f.node):
-            if not (isinstance(c, ast.Call) and unparse(c.func) == "_YearMonthDayCalendar._ctor"):
+            kw = None
+            if isinstance(c, ast.Call) and unparse(c.func) == "_YearMonthDayCalendar._ctor":
+                kw = {k.arg: k.value for k in c.keywords}
+            elif isinstance(c, ast.Call) and unparse(c.func) == "AnnualDate" and (len(c.args) == 2 or {"month", "day"} <= {k.arg for k in c.keywords}):
+                # the validating constructor *raises* for a day beyond the month (as in ISO year 2000): inside parse it has to be
+                # preceded by the same failure-result guard
+                a = {k.arg: k.value for k in c.keywords}
+                kw = {"year": ast.Constant(2000), "month": a.get("month", c.args[0] if c.args else None), "day": a.get("day", c.args[1] if len(c.args) > 1 else None), "calendar_ordinal": ast.parse("_CalendarOrdinal.ISO", mode="eval").body}
+            if kw is None or None in kw.values():
                 continue
-            kw = {k.arg: k.value for k in c.keywords}
             if not {"year", "month", "day"} <= set(kw):
                 continue
             rr.inst()
@@ -758,4 +783,52 @@ def r08_7_embedded_fields(ctx: Ctx) -> RuleResult:
                 rr.fail(f.qual, f"{flag}: parse action `{bad[0][0]}` does not store {bad[0][1]}, which {consumer} reads to build the value (the field keeps its template default)", ctx.loc(f, acts[0][0]))
             else:
                 rr.ok({"producer": f.qual, "flag": flag, "fields": sorted(need)})
+    return rr
+
+
+@rule("C08")
+def r08_8_field_exclusions_checked_on_the_complete_set(ctx: Ctx) -> RuleResult:
+    """An embedded date (time) pattern excludes every other date (time) field.  The exclusion is symmetric in the order the fields
+    appear in the pattern text, so it can only be decided where the complete field set is known: in `_build` (or a helper that
+    only `_build` calls).  A check made while fields are still being added sees one order only; the other order is accepted and
+    the two sources of the same fields then collide at parse time (ValueError from the validating constructor)."""
+    rr = RuleResult("R08.8", "embedded/plain field exclusions (DATE_FIELD_AND_EMBEDDED_DATE, TIME_FIELD_AND_EMBEDDED_TIME) are raised from _build, where the whole field set is known", min_instances=2)
+    M = ctx.M
+    b = M.cls("_SteppedPatternBuilder")
+    build = M.find_method(b, "_build")
+    if build is None:
+        raise AnalysisError("_SteppedPatternBuilder._build missing")
+    # functions reachable from _build by self-calls only
+    reach = {id(build): build}
+    work = [build]
+    while work:
+        g = work.pop()
+        for n in own_nodes(g.node):
+            if isinstance(n, ast.Call) and isinstance(n.func, ast.Attribute) and isinstance(n.func.value, ast.Name) and n.func.value.id == (g.self_name or "self"):
+                t = M.find_method(b, n.func.attr) or M.find_method(b, mangle(b.name, n.func.attr))
+                if t is not None and id(t) not in reach:
+                    reach[id(t)] = t
+                    work.append(t)
+    found = {}
+    for f in b.all_defs:
+        if isinstance(f.node, ast.Lambda):
+            continue
+        for n in own_nodes(f.node):
+            if isinstance(n, ast.Raise) and n.exc is not None:
+                for msg in ("DATE_FIELD_AND_EMBEDDED_DATE", "TIME_FIELD_AND_EMBEDDED_TIME"):
+                    if msg in unparse(n.exc):
+                        found.setdefault(msg, []).append((f, n))
+    for msg in ("DATE_FIELD_AND_EMBEDDED_DATE", "TIME_FIELD_AND_EMBEDDED_TIME"):
+        rr.inst()
+        sites = found.get(msg, [])
+        if not sites:
+            rr.fail(b.qual, f"the exclusion {msg} is never raised: embedded and plain fields of the same kind can be combined", b.mod.rel)
+            continue
+        outside = [(f, n) for f, n in sites if id(f) not in reach]
+        inside = [(f, n) for f, n in sites if id(f) in reach]
+        if inside:
+            rr.ok({"exclusion": msg, "raised in": inside[0][0].qual})
+        else:
+            f, n = outside[0]
+            rr.fail(f.qual, f"{msg} is only raised from {f.name}, while fields are still being added: it sees one order of the two fields; the other order is accepted and fails at parse time", ctx.loc(f, n))
     return rr
